@@ -271,11 +271,12 @@ LEVELS = {
         design_ref='DESIGN.md sections 0.3 and 8, C20', technique='Coq proof (registry state-machine invariant; trace equality of late vs early creation over the regenerated class IR) + lock-step correspondence with System/Asset + twin-behaviour monitor',
         note='Trusted: Coq kernel, pyfacts.py (statement IR of constructors/initialisers), extraction + OCaml driver, Python harness. Behaviour inside initialize() is abstracted to its operation sequence; the twin monitor compares real behaviour.'),
     'C14': dict(
-        text='PARTIAL. Machine-checked on the event-system model: the evolution depends on randomness only through the tie-break weights (same weights, same run); order-preserving renumbering of asset ids commutes with '
-             'sorted insertion, scheduling, pausing, resuming and cancelling; the marker event of run() changes only clock and terminated flag; results list in index order. The end-to-end split equality and the '
-             'multi-process clause are decided by the reproducibility monitor on the implementation (again / seeded / split / multi-process variants) together with the lock-step against the pure model.',
-        design_ref='DESIGN.md sections 0.3 and 8, C14', technique='Coq proof (extensionality in the weight source, renaming equivariance of the queue operations, marker lemmas) + lock-step correspondence at varying id offsets + differential reruns of the implementation',
-        note='Partial: run-split equality and process-level behaviour are not theorems (a Coq model cannot exhibit worker processes).'),
+        text='Machine-checked on the event-system model, for every action behaviour: same weights => same evolution; the evolution does not depend on the numbering of events; '
+             'order-preserving renumbering of asset ids commutes with every queue operation; the marker event of run() is transparent; and from these the RUN-SPLIT THEOREM: '
+             'running for a then b ends in the same world, clock, data and pending/paused events as running once for a+b when the second run hands the remaining events the same weights (C14_run_split). '
+             'PARTIAL only for worker processes (multi-process clause), decided by the reproducibility monitor (rerun / seeded / split / multi-process variants) plus lock-step against the pure model.',
+        design_ref='DESIGN.md sections 0.3 and 8, C14', technique='Coq proof (weight extensionality, numbering independence, renaming equivariance, marker transparency, run-split by simulation) + lock-step correspondence at varying id offsets + differential reruns of the implementation',
+        note='Partial: process-level behaviour is not a theorem (a Coq model cannot exhibit worker processes). Run-split hypotheses: pending events above the terminate priority, actions never pause/cancel id -1.'),
     'C04': dict(
         text='PARTIAL. Machine-checked: the reference recurrence (Model/Line.v) is the tight solution of the service / order / blocking constraints and is monotone in the part number and along the line. '
              'Not a theorem: that the floor model follows the recurrence (whole-run timing). Decided on every run by three-way agreement on generated serial lines: implementation = floor model in lock-step, '
